@@ -347,7 +347,9 @@ enum MultiPath {
     ThenAfterOnce,
 }
 
-const MULTI_PATHS: [MultiPath; 6] = [
+const MULTI_PATHS: [MultiPath; 7] = [
+    // (a count of zero: never requested, stored until teardown like any other)
+    MultiPath::NTimes(0),
     MultiPath::Each,
     MultiPath::NTimes(1),
     MultiPath::NTimes(2),
